@@ -544,7 +544,7 @@ func (p *snapProbe) Parse(ctx *parsley.Context, lrc data.IntMap, pos parsley.Pos
 }
 
 func kindName(k Kind) string {
-	return [...]string{"term", "empty", "seq", "any", "choice", "optional", "many", "many1", "sepby", "sepby1", "seqtry", "seqfirstorall", "nt", "rtrim", "suppresserror", "single"}[k]
+	return [...]string{"term", "empty", "seq", "any", "choice", "optional", "many", "many1", "sepby", "sepby1", "seqtry", "seqfirstorall", "nt", "rtrim", "suppresserror", "single", "ltrim"}[k]
 }
 
 // C07_Immutable: whatever a parser returned reads the same at the end of the
